@@ -114,6 +114,8 @@ def gen_domain(rng):
 
 def gen_db(rng, thorough, want_children=None, for_order=False):
     n = rng.randint(1, 12 if thorough else 8)
+    if rng.random() < 0.2:
+        n = rng.randint(8, 12)           # enough fits beyond the window of a slice
     if rng.random() < 0.04:
         n = 1
     elif n == 1 and rng.random() < 0.7:
@@ -387,6 +389,53 @@ def gen_slice(rng, n, open_prob=0.45):
     return [idx(), idx()]
 
 
+def gen_slice_chain(rng, n):
+    """2-3 chained slices whose first window ends before the end of the selection (fits exist beyond it), followed by
+    open-ended / negative / bounded slices: every later slice must be composed with the limit already carried."""
+    n = max(n, 2)
+    a = rng.randint(0, max(0, n - 3))
+    b = rng.randint(a + 1, max(a + 1, n - 1))
+    first = rng.choice([[a, b], [None, b], [a, b - n], [a - n, b], [None, b - n]])
+
+    def later(m):
+        m = max(m, 1)
+        k = rng.randint(1, min(3, m))
+        r = rng.random()
+        if r < 0.4:
+            return [k, None]                      # open-ended, start >= 1
+        if r < 0.55:
+            return [-rng.randint(1, m), None]     # open-ended, negative start
+        if r < 0.7:
+            return [k, rng.randint(k, m + 2)]
+        if r < 0.8:
+            return [None, -rng.randint(1, m)]
+        if r < 0.9:
+            return [k, -rng.randint(0, 2) or None]
+        return [0, None] if rng.random() < 0.5 else [None, None]
+    width = b - a
+    chain = [first, later(width)]
+    if rng.random() < 0.5:
+        chain.append(later(max(width - 1, 1)))
+    return chain
+
+
+def gen_chain_case(rng, db):
+    """a selection with many fits (no predicate or a broad one), ordered totally, then a chain of slices"""
+    n = len(db)
+    keys = [[a, rng.random() < 0.4] for a in rng.sample(ORDER_ATTRS, rng.randint(0, 1))]
+    keys.append(["id", rng.random() < 0.3])
+    top_only = rng.random() < 0.35
+    m = len([f for f in db if f["parent"] is None]) if top_only else n
+    chain = gen_slice_chain(rng, m)
+    if rng.random() < 0.5:
+        return {"kind": "order", "db": db, "pred": rng.choice(BROAD), "top_only": top_only, "keys": keys,
+                "slices": chain, "index": rng.randint(-n, n - 1)}
+    ops = [["query", rng.choice(BROAD)]] if rng.random() < 0.3 else []
+    ops += [["order", a, r] for a, r in keys]
+    ops += [["slice", a, b, None] for a, b in chain]
+    return {"kind": "ops", "db": db, "top_only": top_only, "ops": ops, "index": rng.randint(-n, n - 1)}
+
+
 def gen_ops(rng, db, pred, make_pred):
     """query / order_by / slice in any order.  The order is made total (order_by id) before the first slice
     and before the end, so that list positions are determined."""
@@ -459,6 +508,9 @@ def gen_cases(ctx):
             else:
                 cases.append({"kind": "query", "db": db, "pred": pred, "top_only": rng.random() < 0.5,
                               "chain": pred[0] == "and" and rng.random() < 0.4})
+        if len(db) >= 4:
+            for _ in range(2):
+                cases.append(gen_chain_case(rng, db))
     return cases
 
 
@@ -858,6 +910,25 @@ def ops_oracle(c, r):
     return None
 
 
+def chain_shape(c):
+    """shape of the slices of a case: per slice o = open-ended start>=1, n = negative bound, b = bounded, - = [:] / [0:]"""
+    if c["kind"] == "order":
+        sl = c["slices"]
+    elif c["kind"] == "ops":
+        sl = [[o[1], o[2]] for o in c["ops"] if o[0] == "slice"]
+    else:
+        return None
+    if len(sl) < 2:
+        return None
+    def sh(a, b):
+        if (a is not None and a < 0) or (b is not None and b < 0):
+            return "n"
+        if b is None:
+            return "o" if a else "-"
+        return "b"
+    return "".join(sh(a, b) for a, b in sl)
+
+
 def nontrivial(c, r):
     if c["kind"] == "ops":
         return len(c["ops"]) >= 3 and len(r.get("ids", [])) > 0
@@ -978,6 +1049,8 @@ def run(ctx):
             ctx.hist("ops", " ".join(o[0][0] for o in c["ops"]))
         else:
             ctx.hist("selected", "none" if not r["direct"] else "all" if len(r["direct"]) == len(c["db"]) else "some")
+        if chain_shape(c):
+            ctx.hist("slice_chain", chain_shape(c))
         ctx.oracle["cases"] += 1
         if "dump" in r:
             msg = check_dump(c, r["dump"])
